@@ -181,6 +181,7 @@ def run(ctx):
                     am = am or (xa == x and not pa)
                     xp, pp = ktloops.pt_sweep(K, rb, hh)
                     pt = pt or (xp == x and not pp)
+                pt = pt or ktloops.pt_search(K, fx, x) is not None
                 rm = [e for e in fx.effects if e.kind == "RETAIN" and e.lst == "IP" and ktx.Analysis._retain_removes_key(e) == x]
                 per_key += 1
                 ck.ob("C08-R5", RAK, "per-key:mappings-needing-it-removed,lifted-from-pass_through,forgotten-as-input", am and pt and len(rm) == 1,
